@@ -23,6 +23,8 @@ PINS = [
     'mesonbuild.arglist:Dedup',
     'mesonbuild.compilers.mixins.clike:CLikeCompilerArgs',
     'mesonbuild.compilers.d:DCompilerArgs',
+    'mesonbuild.build:BuildTarget.get_single_compile_base_args',
+    'mesonbuild.build:BuildTarget._generate_single_compile_base_args',
 ]
 TRUSTED = [
     'stub compiler: unix_args_to_native is the identity, get_default_include_dirs returns fixed absolute paths',
@@ -31,6 +33,9 @@ TRUSTED = [
     'arguments are str without newline handling differences beyond ASCII; batches are lists of str '
     '(a bare str or a non-iterable passed to += is outside the domain)',
     'integer indices only for []/del/insert (no slices)',
+    'sharing: the reference-level Lean model assumes separation (Sep) of list objects; on the implementation the harness checks after '
+    'every operation that no two live objects and no object and caller-owned list share a list object (id), and the frame conditions',
+    'end-to-end leg: fake nasm/ninja programs on PATH, real gcc detection; ARGS read from build.ninja with a line regex',
 ]
 
 GEN_PATH = os.path.join(common.LEAN, 'MesonModel', 'Generated', 'ArgTables.lean')
@@ -260,7 +265,7 @@ def op_text(op: tuple) -> str:
 
 
 def script_line(cls: str, gnu: bool, dirs: bool, script: T.List[tuple]) -> str:
-    return f'run {cls}|{int(gnu)}|{e_list(DEFAULT_DIRS) if dirs else ""}|' + ';'.join(op_text(o) for o in script)
+    return f'run {cls}|{int(gnu)}|{e_list(DEFAULT_DIRS) if dirs else ""}|' + ';'.join(op_text(o) for o in lower(script))
 
 
 def show_state(o) -> str:
@@ -270,10 +275,10 @@ def show_state(o) -> str:
 def apply_on(o, name: str, ps: tuple) -> T.Tuple[T.Any, str]:
     """one single-object operation on the real object -> (object, canonical output)"""
     if name == 'iadd':
-        o += list(ps[0])
+        o += ps[0]
         return o, '-'
     if name == 'extend':
-        o.extend(list(ps[0]))
+        o.extend(ps[0])
         return o, '-'
     if name == 'append':
         o.append(ps[0])
@@ -282,10 +287,10 @@ def apply_on(o, name: str, ps: tuple) -> T.Tuple[T.Any, str]:
         o.append_direct(ps[0])
         return o, '-'
     if name == 'extd':
-        o.extend_direct(list(ps[0]))
+        o.extend_direct(ps[0])
         return o, '-'
     if name == 'extl':
-        o.extend_preserving_lflags(list(ps[0]))
+        o.extend_preserving_lflags(ps[0])
         return o, '-'
     if name == 'ins':
         o.insert(ps[0], ps[1])
@@ -308,7 +313,7 @@ def apply_on(o, name: str, ps: tuple) -> T.Tuple[T.Any, str]:
     if name == 'len':
         return o, f'N{len(o)}'
     if name == 'eql':
-        return o, 'B' + str(int(o == list(ps[0])))
+        return o, 'B' + str(int(o == ps[0]))
     if name == 'nat':
         return o, 'L' + e_list(o.to_native(copy=bool(ps[0])))
     # collections.abc.MutableSequence mixin methods
@@ -360,18 +365,162 @@ class Hooks:
     def after(self, objs, op, out, new_index): ...
 
 
-def exec_impl(cls, compiler, script: T.List[tuple], eager: bool = False, hooks: T.Optional[Hooks] = None
-              ) -> T.Tuple[T.List[str], T.List[T.Any]]:
+# ---- external (caller-owned) lists.  A list parameter of an operation is either a literal list or a
+# reference 'x:<k>' to the k-th external list: the SAME Python list object is then handed to the class.
+#   ('xlist', [args])            the caller creates a list
+#   ('xmut', k, 'append', a) | ('xmut', k, 'pop') | ('xmut', k, 'set0', a) | ('xmut', k, 'clear')
+#                                the caller changes its own list afterwards
+LIST_ON_OPS = ('iadd', 'extend', 'extd', 'extl', 'eql')
+
+
+def is_ref(p) -> bool:
+    return isinstance(p, str) and p.startswith('x:')
+
+
+def x_apply(lst: T.List[str], op: tuple) -> None:
+    kind = op[2]
+    if kind == 'append':
+        lst.append(op[3])
+    elif kind == 'pop':
+        if lst:
+            lst.pop()
+    elif kind == 'set0':
+        if lst:
+            lst[0] = op[3]
+    elif kind == 'clear':
+        lst.clear()
+
+
+def lower(script: T.List[tuple]) -> T.List[tuple]:
+    """the value-level script (what the model and the reference oracle see): references replaced by the
+    value the external list has at that moment, caller-side operations dropped"""
+    shadow: T.List[T.List[str]] = []
+    out: T.List[tuple] = []
+
+    def val(p):
+        if is_ref(p):
+            k = int(p[2:])
+            return list(shadow[k]) if k < len(shadow) else []
+        return list(p)
+    for op in script:
+        k = op[0]
+        if k == 'xlist':
+            shadow.append(list(op[1]))
+        elif k == 'xmut':
+            if op[1] < len(shadow):
+                x_apply(shadow[op[1]], op)
+        elif k == 'new':
+            out.append(('new', val(op[1])))
+        elif k == 'add':
+            out.append(('add', op[1], val(op[2])))
+        elif k == 'radd':
+            out.append(('radd', val(op[1]), op[2]))
+        elif k == 'on' and op[2] in LIST_ON_OPS:
+            out.append(('on', op[1], op[2], val(op[3])))
+        else:
+            out.append(tuple(op))
+    return out
+
+
+def raw_state(o) -> tuple:
+    return (tuple(o._container), tuple(o.pre), tuple(o.post), o.needs_override_check)
+
+
+class Frame:
+    """model-independent frame oracle: an operation changes only its receiver.  External lists keep their
+    value unless the caller itself changes them; objects that do not take part keep their raw state; operands
+    keep their eager value; no two live objects and no object and external list share a list object."""
+
+    def __init__(self, ctx: Ctx, cname: str, script):
+        self.ctx, self.cname, self.script = ctx, cname, script
+        self.step = 0
+
+    @staticmethod
+    def roles(op) -> T.Tuple[T.Set[int], T.Set[int]]:
+        k = op[0]
+        if k == 'on':
+            return {op[1]}, set()
+        if k in ('copy', 'newfrom', 'add'):
+            return set(), {op[1]}
+        if k == 'radd':
+            return set(), {op[2]}
+        if k == 'iaddobj':
+            return {op[1]}, {op[2]} - {op[1]}
+        if k == 'eqobj':
+            return set(), {op[1], op[2]}
+        return set(), set()
+
+    def snap(self, objs, ext, op):
+        self.ext0 = [list(x) for x in ext]
+        self.raw0 = [raw_state(o) for o in objs]
+        _w, operands = self.roles(op)
+        self.peek0 = {n: peek(objs[n]) for n in operands if n < len(objs)}
+
+    def check(self, objs, ext, op) -> None:
+        k = op[0]
+        case = {'class': self.cname, 'script': self.script[:self.step + 1]}
+        # external lists
+        want = [list(x) for x in self.ext0]
+        if k == 'xmut' and op[1] < len(want):
+            x_apply(want[op[1]], op)
+        for n, (x, w) in enumerate(zip(ext, want)):
+            if x != w:
+                self.ctx.violation('frame:external-list-modified',
+                                   f'the caller\'s list x:{n} was changed by {op[:3]}: {w} -> {x}', {**case, 'list': n})
+        # objects
+        writers, operands = self.roles(op)
+        for n in range(len(self.raw0)):
+            if n in writers:
+                continue
+            if n in operands:
+                if peek(objs[n]) != self.peek0[n]:
+                    self.ctx.violation('frame:operand-changed', f'object {n} is only read by {op[:3]} but its list changed: '
+                                       f'{self.peek0[n]} -> {peek(objs[n])}', {**case, 'object': n})
+            elif raw_state(objs[n]) != self.raw0[n]:
+                self.ctx.violation('frame:other-object-changed', f'object {n} takes no part in {op[:3]} but changed: '
+                                   f'{self.raw0[n]} -> {raw_state(objs[n])}', {**case, 'object': n})
+        # sharing
+        owners: T.Dict[int, str] = {id(x): f'x:{n}' for n, x in enumerate(ext)}
+        for n, o in enumerate(objs):
+            for part in (o._container, o.post):
+                if id(part) in owners:
+                    self.ctx.violation('alias:list-shared', f'object {n} shares a list object with {owners[id(part)]} after {op[:3]}',
+                                       {**case, 'object': n})
+                owners[id(part)] = f'object {n}'
+        self.step += 1
+
+
+def exec_impl(cls, compiler, script: T.List[tuple], eager: bool = False, hooks: T.Optional[Hooks] = None,
+              frame: T.Optional[Frame] = None) -> T.Tuple[T.List[str], T.List[T.Any]]:
+    """run a (raw) script on the real class; one output per value-level operation (see `lower`)"""
     objs: T.List[T.Any] = []
+    ext: T.List[T.List[str]] = []
     outs: T.List[str] = []
+    lowered = lower(script) if hooks else []
+    li = 0
+
+    def real(p):
+        if is_ref(p):
+            k = int(p[2:])
+            return ext[k] if k < len(ext) else []
+        return list(p)
     for op in script:
         k = op[0]
         out = '-'
         new_index = None
-        if hooks:
-            hooks.before(objs, op)
+        if frame:
+            frame.snap(objs, ext, op)
+        if k == 'xlist':
+            ext.append(list(op[1]))
+        elif k == 'xmut':
+            if op[1] < len(ext):
+                x_apply(ext[op[1]], op)
+        if k in ('xlist', 'xmut'):
+            if frame:
+                frame.check(objs, ext, op)
+            continue
         if k == 'new':
-            objs.append(cls(compiler, list(op[1])))
+            objs.append(cls(compiler, real(op[1])))
             new_index = len(objs) - 1
         elif k in ('newfrom', 'copy', 'add', 'radd'):
             i = op[2] if k == 'radd' else op[1]
@@ -381,9 +530,9 @@ def exec_impl(cls, compiler, script: T.List[tuple], eager: bool = False, hooks: 
                 elif k == 'copy':
                     objs.append(objs[i].copy())
                 elif k == 'add':
-                    objs.append(objs[i] + list(op[2]))
+                    objs.append(objs[i] + real(op[2]))
                 else:
-                    objs.append(list(op[1]) + objs[i])
+                    objs.append(real(op[1]) + objs[i])
                 new_index = len(objs) - 1
         elif k == 'iaddobj':
             i, j = op[1], op[2]
@@ -400,13 +549,19 @@ def exec_impl(cls, compiler, script: T.List[tuple], eager: bool = False, hooks: 
         else:
             i = op[1]
             if i < len(objs):
-                objs[i], out = apply_on(objs[i], op[2], op[3:])
+                ps = tuple(op[3:])
+                if op[2] in LIST_ON_OPS:
+                    ps = (real(ps[0]),) + ps[1:]
+                objs[i], out = apply_on(objs[i], op[2], ps)
+        if frame:
+            frame.check(objs, ext, op)
         if eager:
             for o in objs:
                 o.flush_pre_post()
         outs.append(out)
         if hooks:
-            hooks.after(objs, op, out, new_index)
+            hooks.after(objs, lowered[li], out, new_index)
+            li += 1
     return outs, objs
 
 
@@ -534,6 +689,7 @@ class Oracle(Hooks):
         self.refs: T.List[T.List[str]] = []
         self.always = always
         self.kind = lambda a: ref_kind(cls, cname, a)
+        self.has_x = any(o[0] in ('xlist', 'xmut') for o in script)
         self.step = 0
         self.failed = False
 
@@ -542,12 +698,12 @@ class Oracle(Hooks):
         key = f'{self.cname}:{clause}:{kn}'
         self.failed = True
         self.ctx.violation(key, what, {'class': self.cname, 'gnu': self.gnu, 'dirs': self.dirs,
-                                       'script': self.script[:self.step + 1], **extra})
+                                       'script': self.script if self.has_x else self.script[:self.step + 1], **extra})
 
     def report_key(self, key: str, what: str, extra: dict) -> None:
         self.failed = True
         self.ctx.violation(key, what, {'class': self.cname, 'gnu': self.gnu, 'dirs': self.dirs,
-                                       'script': self.script[:self.step + 1], **extra})
+                                       'script': self.script if self.has_x else self.script[:self.step + 1], **extra})
 
     def diff(self, i: int, real: T.List[str], op) -> None:
         ref = self.refs[i]
@@ -802,7 +958,62 @@ def rand_script(rng, alpha, maxlen=14) -> T.List[tuple]:
     return s
 
 
+def alias_script(rng, alpha, maxlen=10) -> T.List[tuple]:
+    """2-3 objects built from / fed with the SAME caller-owned lists, the caller changing them in between"""
+    plain = [a for a in alpha if not a.startswith(('-I', '-L', '-D', '-U', '-isystem'))] or alpha
+    pick = (lambda: rand_arg(rng, plain)) if rng.random() < 0.6 else (lambda: rand_arg(rng, alpha))
+    s: T.List[tuple] = [('xlist', [pick() for _ in range(rng.randint(0, 4))])]
+    nx, nobj = 1, 0
+    if rng.random() < 0.4:
+        s.append(('xlist', [pick() for _ in range(rng.randint(0, 3))]))
+        nx = 2
+    for _ in range(rng.randint(3, maxlen)):
+        r = rng.random()
+        x = f'x:{rng.randrange(nx)}'
+        if nobj == 0 or r < 0.22:
+            s.append(('new', x))
+            nobj += 1
+            continue
+        i = rng.randrange(nobj)
+        if r < 0.30:
+            s.append(('xmut', rng.randrange(nx), 'append', pick()) if rng.random() < 0.6 else
+                     ('xmut', rng.randrange(nx), rng.choice(['pop', 'clear'])))
+        elif r < 0.42:
+            s.append(('on', i, rng.choice(['iadd', 'extend', 'extd', 'extl', 'eql']), x))
+        elif r < 0.47:
+            s.append(('add', i, x))
+            nobj += 1
+        elif r < 0.52:
+            s.append(('radd', x, i))
+            nobj += 1
+        elif r < 0.62:
+            s.append(('on', i, rng.choice(['iter', 'len', 'revd'])))
+        elif r < 0.70:
+            s.append(('on', i, 'ins', rand_index(rng), pick()))
+        elif r < 0.76:
+            s.append(('on', i, 'appd', pick()))
+        elif r < 0.84:
+            s.append(('on', i, 'nat', rng.choice([0, 0, 1])))
+        elif r < 0.88:
+            s.append(('copy', i))
+            nobj += 1
+        elif r < 0.92:
+            s.append(('on', i, rng.choice(['rev', 'clear'])))
+        else:
+            s.append(('on', i, 'iadd', [pick() for _ in range(rng.randint(1, 3))]))
+    for i in range(nobj):
+        s.append(('on', i, 'iter'))
+    return s
+
+
 CORPUS: T.List[T.Tuple[str, T.List[tuple]]] = [
+    # the pattern of BuildTarget.get_single_compile_base_args: one long-lived list, a fresh object per source
+    ('base', [('xlist', ['-O2', '-g']), ('new', 'x:0'), ('on', 0, 'iadd', ['-DA', '-w']), ('on', 0, 'iter'),
+              ('new', 'x:0'), ('on', 1, 'iadd', ['-DA', '-w']), ('on', 1, 'iter'), ('new', 'x:0'), ('on', 2, 'iter')]),
+    ('clike', [('xlist', ['-O2', '-g']), ('new', 'x:0'), ('on', 0, 'iadd', ['-w']), ('on', 0, 'iter'), ('new', 'x:0'), ('on', 1, 'iter')]),
+    ('base', [('xlist', ['a', 'b']), ('new', 'x:0'), ('on', 0, 'ins', 0, 'z'), ('on', 0, 'appd', 'q'), ('on', 0, 'nat', 0),
+              ('xmut', 0, 'append', 'c'), ('on', 0, 'iter'), ('new', 'x:0'), ('on', 1, 'iadd', 'x:0'), ('on', 1, 'extd', 'x:0'),
+              ('add', 1, 'x:0'), ('radd', 'x:0', 1), ('on', 1, 'iter'), ('xmut', 0, 'clear'), ('on', 2, 'iter'), ('on', 3, 'iter')]),
     # the class docstring
     ('clike', [('new', ['-Lfoo', '-lbar']), ('on', 0, 'iadd', ['-Lpho', '-lbaz']), ('on', 0, 'iter')]),
     ('clike', [('new', ['-Ifoo', '-Ibar']), ('add', 0, ['-Ifez', '-Ibaz', '-Werror']), ('on', 1, 'iter')]),
@@ -894,7 +1105,8 @@ def _check_case(ctx: Ctx, cl, case: Case, with_oracle: bool = True) -> T.Tuple[s
     cls = cl[case.cname]
     comp = stub_compiler(case.gnu, case.dirs)
     orc = Oracle(ctx, cls, case.cname, case.gnu, case.dirs, case.script, cls.always_dedup_args) if with_oracle else None
-    outs, objs = exec_impl(cls, comp, case.script, hooks=orc)
+    outs, objs = exec_impl(cls, comp, case.script, hooks=orc,
+                           frame=Frame(ctx, case.cname, case.script) if with_oracle else None)
     ans = impl_answer(outs, objs)
     finals = [peek(o) for o in objs]
     if with_oracle:
@@ -931,7 +1143,9 @@ def kind_checks(ctx: Ctx, cl, strings: T.List[str]) -> T.List[T.Tuple[str, str, 
 def run(ctx: Ctx) -> None:
     cl = classes()
     rng = ctx.rng
-    ctx.rule = ('corpus scripts first; every operation sequence of length <=2 over a 10-argument alphabet (3 initial '
+    ctx.rule = ('(plus an aliasing stream: 2-3 objects built from / fed with the same caller-owned list objects, the caller '
+                'changing them in between, with a frame oracle after every operation; plus one end-to-end meson setup of targets '
+                'with 3-4 sources per language) corpus scripts first; every operation sequence of length <=2 over a 10-argument alphabet (3 initial '
                 'containers, C-like class) and of length <=3 over a 4-argument alphabet (3 classes); random scripts of up '
                 'to 14 operations over 1-5 objects, three classes, batches <=5 with in-batch repeats, raw duplicates in '
                 'initial containers, out-of-range indices, malformed arguments (newlines, empty, non-ASCII, protocol '
@@ -983,6 +1197,10 @@ def run(ctx: Ctx) -> None:
         ex3 = rng.sample(ex3, ctx.scale(30000, 100000))
         for k, sc in enumerate(ex3):
             yield Case(('clike', 'd', 'base')[k % 3], False, False, sc, 'exhaustive3')
+        for _ in range(ctx.scale(12000, 80000)):
+            cname = rng.choice(['base', 'base', 'clike', 'd'] + [c for c in cl if c not in ('clike', 'd', 'base')])
+            yield Case(cname, rng.random() < 0.5, rng.random() < 0.3,
+                       alias_script(rng, alphas[cname] if rng.random() < 0.5 else ALPHA_SMALL), 'aliasing')
         for _ in range(ctx.scale(25000, 200000)):
             cname = rng.choice(['clike', 'clike', 'clike', 'd', 'base'] + [c for c in cl if c not in ('clike', 'd', 'base')] * 2)
             alpha = alphas[cname] if rng.random() < 0.6 else ALPHA_SMALL
@@ -1014,6 +1232,9 @@ def run(ctx: Ctx) -> None:
         ctx.seen_nontrivial(hash(k))
     ctx.count(len(lines))
 
+    # -- end-to-end: real frontend + Ninja backend on a target with several sources per language
+    e2e_leg(ctx)
+
     # -- correspondence with the model
     if ctx.model_available:
         answers = ctx.driver('arglist', lines)
@@ -1044,7 +1265,7 @@ def _args_of(script) -> T.List[str]:
     out: T.List[str] = []
     for op in script:
         for p in op[1:]:
-            if isinstance(p, str) and p not in ('iadd', 'extend', 'append', 'appd', 'extd', 'extl', 'ins', 'set', 'del',
+            if isinstance(p, str) and not is_ref(p) and p not in ('iadd', 'extend', 'append', 'appd', 'extd', 'extl', 'ins', 'set', 'del',
                                                 'get', 'iter', 'cp', 'len', 'eql', 'nat', 'rev', 'revd', 'pop', 'remove', 'index',
                                                 'count', 'contains', 'clear'):
                 out.append(p)
@@ -1143,3 +1364,83 @@ def replay(ctx: Ctx, rep: dict) -> None:
         kind_checks(ctx, cl, [case['arg']])
         for v in ctx.violations:
             print(' oracle:', v['key'], '-', v['what'])
+
+
+# ------------------------------------------------------------------ end-to-end leg: one target, several sources
+
+E2E_MESON = """project('p', 'c', 'nasm')
+add_project_arguments('-DPROJ_DEFINE=1', '-w+all', language: 'nasm')
+add_project_arguments('-DCPROJ=1', '-fno-common', language: 'c')
+executable('e', 'main.c', 'a.asm', 'b.asm', 'c.asm', 'd.asm',
+           nasm_args: ['-DT=1', '-w+other', '-w+other'])
+static_library('l', 'x.c', 'y.c', 'z.c', c_args: ['-DCT=1', '-DCT=1', '-funroll-loops', '-funroll-loops'],
+               include_directories: include_directories('inc'))
+"""
+
+
+def e2e_leg(ctx: Ctx) -> None:
+    """`meson setup` (real frontend and Ninja backend, fake `nasm`/`ninja`) of a target with several sources per
+    language: every compile statement of one target and language must carry the same ARGS, with the specified
+    arguments in the specified multiplicity (NASM uses the plain CompilerArgs class, C the C-like one)."""
+    import re
+    import stat
+    import subprocess
+    import sys
+    tmp = common.scratch_dir('mverif-c13-')
+    try:
+        bindir, src, bld = (os.path.join(tmp, d) for d in ('bin', 'src', 'bld'))
+        os.makedirs(bindir)
+        os.makedirs(os.path.join(src, 'inc'))
+
+        def write(path, text, exe=False):
+            with open(path, 'w', encoding='utf-8') as f:
+                f.write(text)
+            if exe:
+                os.chmod(path, os.stat(path).st_mode | stat.S_IXUSR | stat.S_IXGRP | stat.S_IXOTH)
+        write(os.path.join(bindir, 'nasm'), '#!/bin/sh\ncase "$1" in --version|-v) echo "NASM version 2.16.01 compiled on Jan  1 2024";; esac\nexit 0\n', True)
+        write(os.path.join(bindir, 'ninja'), '#!/bin/sh\nif [ "$1" = "--version" ]; then echo 1.11.1; fi\nexit 0\n', True)
+        write(os.path.join(src, 'meson.build'), E2E_MESON)
+        write(os.path.join(src, 'main.c'), 'int main(void) { return 0; }\n')
+        for n in 'xyz':
+            write(os.path.join(src, n + '.c'), f'int {n}(void) {{ return 0; }}\n')
+        for n in 'abcd':
+            write(os.path.join(src, n + '.asm'), '; nothing\n')
+        env = os.environ.copy()
+        env['PATH'] = bindir + os.pathsep + env['PATH']
+        env['PYTHONPATH'] = common.REPO
+        for v in ('CFLAGS', 'LDFLAGS', 'CPPFLAGS', 'CC', 'ASFLAGS', 'NASMFLAGS'):
+            env.pop(v, None)
+        p = subprocess.run([sys.executable, os.path.join(common.REPO, 'meson.py'), 'setup', '--backend=ninja', bld, src],
+                           env=env, stdout=subprocess.PIPE, stderr=subprocess.STDOUT, text=True, timeout=300)
+        if p.returncode != 0:
+            ctx.notes.append('end-to-end leg unavailable: meson setup failed: ' + p.stdout[-300:].replace('\n', ' | '))
+            ctx.tag('e2e:unavailable')
+            return
+        text = open(os.path.join(bld, 'build.ninja'), encoding='utf-8').read()
+        args: T.Dict[str, T.List[str]] = {}
+        for m in re.finditer(r'^build (\S+): (\S+) (\S+)[^\n]*\n((?: [^\n]*\n)+)', text, re.M):
+            _out, _rule, inp, body = m.groups()
+            am = re.search(r'^ ARGS = (.*)$', body, re.M)
+            args[os.path.basename(inp)] = am.group(1).split() if am else []
+        ctx.tag('e2e:compile-statements', len(args))
+        ctx.count(len(args))
+        spec = {
+            'asm': (['a.asm', 'b.asm', 'c.asm', 'd.asm'], {'-DPROJ_DEFINE=1': 1, '-w+all': 1, '-DT=1': 1, '-w+other': 2}),
+            'c': (['x.c', 'y.c', 'z.c'], {'-DCPROJ=1': 1, '-fno-common': 1, '-DCT=1': 1, '-funroll-loops': 2}),
+        }
+        for lang, (files, counts) in spec.items():
+            if any(f not in args for f in files):
+                ctx.violation(f'e2e:{lang}:statement-missing', f'compile statements not found for {files}', {'found': sorted(args)})
+                continue
+            for f in files:
+                for a, n in counts.items():
+                    if args[f].count(a) != n:
+                        ctx.violation(f'e2e:{lang}:multiplicity', f'ARGS of {f} has {a!r} {args[f].count(a)} times, the build '
+                                      f'definition asks for {n}', {'file': f, 'ARGS': args[f], 'first': args[files[0]],
+                                                                   'meson.build': E2E_MESON})
+                if args[f] != args[files[0]]:
+                    ctx.violation(f'e2e:{lang}:sources-differ', f'{f} and {files[0]} of one target get different ARGS',
+                                  {'file': f, 'ARGS': args[f], 'first': args[files[0]], 'meson.build': E2E_MESON})
+        ctx.sample({'e2e ARGS a.asm': args.get('a.asm'), 'x.c': args.get('x.c')}, limit=12)
+    finally:
+        common.rmtree(tmp)
